@@ -16,6 +16,9 @@ import (
 	"fmt"
 	"io"
 	"net"
+	"os"
+	"regexp"
+	"strconv"
 	"strings"
 	"sync"
 	"time"
@@ -361,7 +364,7 @@ func c06Run(sc *c06Scenario) (*c06Result, error) {
 func c06Term(sc *c06Scenario, res *c06Result) string {
 	B := sc.B
 	if B == 0 {
-		B = 128 * 1024
+		B = defaultReadBuf()
 	}
 	if B < 16 {
 		B = 16
@@ -915,7 +918,7 @@ func runC06(tier string, seed uint64, out string) error {
 	}
 	// the default buffer size (128 KiB)
 	{
-		B := 128 * 1024
+		B := defaultReadBuf()
 		nDef := 3 * scale
 		for si := 0; si < nDef; si++ {
 			st := &c06Stream{bytes: []byte{0x20, 2, 0, 0}, bounds: []int{4}, desc: []string{"CONNACK"}}
@@ -989,4 +992,32 @@ func runC06(tier string, seed uint64, out string) error {
 	cs.extra["histories_ending_in_error_other_than_EOF"] = nErrRet
 	cs.extra["big_message_returns"] = nBigRet
 	return cs.write(out, c06Shard)
+}
+
+// defaultReadBuf is the read buffer size the library uses when nobody overrides it, as the
+// sources under test declare it (var readBufSize = a * b ...): the size is not part of any
+// property, so the model follows the code here.
+func defaultReadBuf() int {
+	repo := os.Getenv("VERIF_REPO")
+	if repo == "" {
+		repo = "/repo"
+	}
+	src, err := os.ReadFile(repo + "/client.go")
+	if err == nil {
+		if m := regexp.MustCompile(`(?m)^var readBufSize = ([0-9 *]+)`).FindSubmatch(src); m != nil {
+			n := 1
+			for _, f := range strings.Split(string(m[1]), "*") {
+				v, err := strconv.Atoi(strings.TrimSpace(f))
+				if err != nil {
+					n = 0
+					break
+				}
+				n *= v
+			}
+			if n >= 16 {
+				return n
+			}
+		}
+	}
+	return 128 * 1024
 }
